@@ -23,7 +23,7 @@ for i in range(1, 21):
         "engine": "lbsa",
         "level_claimed": {
             "category": "other",
-            "text": m.EXPLANATION,
+            "text": m.EXPLANATION + (" " + m.EXACTNESS if getattr(m, "EXACTNESS", "") else ""),
             "design_ref": f"DESIGN.md §5 {pid}",
         },
         "level_note": "Static analysis of /repo's source only (never executed). Sound up to: " + "; ".join(
